@@ -329,9 +329,22 @@ template <> struct TextCodec<int> {
     static int parse(const std::string &s) { return std::stoi(s); }
 };
 
+// a caller's own formatter / parser: 'a' (not the default label) is the empty text, the default "0"
+template <> struct TextCodec<char> {
+    static char enc(int a) { return Codec<char>::enc(a); }
+    static int dec(const char &v) {
+        int a = Codec<char>::dec(v);
+        return a == UNKNOWN_L ? 99 : a;
+    }
+    static std::string format(const char &c) { return c == 'a' ? std::string() : c == '\0' ? std::string("0") : std::string(1, c); }
+    static char parse(const std::string &s) { return s.empty() ? 'a' : s == "0" ? '\0' : s == "Z" ? 'Z' : s == "#" ? '#' : '?'; }
+};
+
 template <template <class...> class G, class L> void writeText(const G<L> &g, const std::string &path) {
     if constexpr (std::is_same<L, NoLabel>::value)
         io::writeTextEdgeList(g, path);
+    else if constexpr (std::is_same<L, char>::value)
+        io::writeTextEdgeList<G, L>(g, path, TextCodec<char>::format);
     else if constexpr (std::is_same<L, int>::value)
         io::writeTextEdgeList(g, path); // the default formatter (std::to_string)
     else
@@ -428,6 +441,8 @@ template <template <class...> class G> void textCase(const json &c, bool directe
         roundtrip ? textRoundTripT<G, std::string>(c, directed) : textLoadT<G, std::string>(c, directed);
     else if (codec == "int")
         roundtrip ? textRoundTripT<G, int>(c, directed) : textLoadT<G, int>(c, directed);
+    else if (codec == "char")
+        roundtrip ? textRoundTripT<G, char>(c, directed) : textLoadT<G, char>(c, directed);
     else
         throw Fail{"unknown codec"};
 }
